@@ -63,6 +63,13 @@ class World:
                 fail[kind] -= hit
                 fail['fired'] += 1
                 raise HardwareError(f'transient {kind} failure at {sorted(hit)}')
+        # hardware that takes only some values (a coarser grid): what it holds afterwards is what both sides show
+        coarse = rng.random() < 0.3
+
+        def coerce(x):
+            return x - x % 2 if coarse else x
+        if coarse:
+            r.count('struct_sequences_with_coercing_hardware')
         if combined:
             def read_ctrl(self):
                 maybe_fail('read', members)
@@ -71,7 +78,7 @@ class World:
             if not readonly:
                 def write_ctrl(self, v):
                     maybe_fail('write', members)
-                    hw.update(v)
+                    hw.update({k_: coerce(x_) for k_, x_ in v.items()})
                     return dict(hw)
                 ns['write_ctrl'] = write_ctrl
         else:
@@ -83,8 +90,8 @@ class World:
                 if not readonly:
                     def w(self, v, k=k):
                         maybe_fail('write', [k])
-                        hw[k] = v
-                        return v
+                        hw[k] = coerce(v)
+                        return hw[k]
                     ns[f'write_m_{k}'] = w
         inherited = combined and rng.random() < 0.4
         if inherited:
